@@ -64,17 +64,7 @@ pub proof fn axiom_u10_extra_bounds()
         forall|q: int| 0 <= q < 30 ==> #[trigger] DIST_EXTRA_TABLE[q] <= 13,
 {}
 
-// ---- Huffman codes as a function of the code lengths (A-HUFF) ----
-/// A-HUFF: the (bit-reversed) canonical codes calc_huffman_codes assigns to a vector of code lengths. ASSUMED to be a
-/// function of the lengths; the pairing with the decoding tree is checked by Kani (U10.fixed complete for the fixed
-/// code, U10.huff bounded for small alphabets)
-pub uninterp spec fn canon(l: Seq<u8>) -> Seq<u16>;
-/// A-HUFF: `tree` is what calculate_huffman_code_tree returns for the code lengths l
-pub uninterp spec fn tree_for(tree: Seq<i32>, l: Seq<u8>) -> bool;
-
-/// the bits of symbol s as they appear in the stream
-pub open spec fn sym_bits(l: Seq<u8>, s: int) -> Seq<bool> { lsb_bits(canon(l)[s] as nat, l[s] as nat) }
-
+// ---- Huffman codes as a function of the code lengths: canon / tree_for / sym_bits are defined in huffman.rs (U21) ----
 pub struct Codes { pub ll: Seq<u8>, pub dl: Seq<u8> }
 
 /// RFC 1951 3.2.5: bits of one token under the code lengths c (see token_bits in deflate_hw for the writer view)
